@@ -176,8 +176,14 @@ func (sc *specCtx) lvalues(e CExpr) (locs []heapLoc, all bool) {
 		switch e.F {
 		case "elems": // elements of a slice
 			x := sc.evalTerm(e.Args[0])
+			if x.T != nil {
+				if _, isMap := x.T.Underlying().(*types.Map); isMap {
+					hv, _, _, _ := vc.mapHV(x.T)
+					return []heapLoc{{hv, x.S}}, false // the contents of the map
+				}
+			}
 			if x.Sort != SSlice {
-				unsup("modifies elems(x): x must be a slice")
+				unsup("modifies elems(x): x must be a slice or a map")
 			}
 			el := x.T.Underlying().(*types.Slice).Elem()
 			return []heapLoc{{vc.arrHV(el), "(s-ref " + x.S + ")"}}, false
